@@ -1,6 +1,7 @@
 package main
 
 import (
+	"go/constant"
 	"go/token"
 	"go/types"
 	"sort"
@@ -489,7 +490,39 @@ func ruleBroadcastOrder(c *Ctx, r *R) {
 	if good {
 		// both unconditional (entry block of their own function, reached from the entry block of Broadcast), close first
 		uncond := func(d *deepInstr) bool {
-			return d.in.Block() == d.in.Parent().Blocks[0] && d.site.Block() == fn.Blocks[0]
+			if d.site.Block() != fn.Blocks[0] {
+				return false
+			}
+			if d.in.Block() == d.in.Parent().Blocks[0] {
+				return true
+			}
+			// a shared implementation selected by a constant argument (c.wake(wakeAll): `switch scope { case wakeAll: ... }`): the
+			// block is reached on every call from here when each of its guards compares a parameter with a constant and
+			// folds to true for the constant this call passes
+			gs := guardsOfRaw(d.in.Block())
+			if len(gs) == 0 || len(d.calls) == 0 {
+				return false
+			}
+			for _, g := range gs {
+				cf, ok := g.asCmp()
+				if !ok {
+					return false
+				}
+				x, y := cf.x, cf.y
+				op := cf.op
+				if _, isK := x.(*ssa.Const); isK {
+					x, y, op = y, x, flip(op)
+				}
+				ky, okY := y.(*ssa.Const)
+				kx, okX := argOf(resolveVal(x), d.calls).(*ssa.Const)
+				if !okX || !okY || kx.Value == nil || ky.Value == nil || kx.Value.Kind() != ky.Value.Kind() {
+					return false
+				}
+				if !constant.Compare(kx.Value, op, ky.Value) {
+					return false
+				}
+			}
+			return true
 		}
 		before := false
 		if cl.in.Parent() == st.in.Parent() && len(cl.calls) == len(st.calls) {
